@@ -25,6 +25,7 @@ func runC08(c *an.Ctx) {
 	r08d(c)
 	r08e(c)
 	r08f(c)
+	pendingResetRule(c, "R08g")
 }
 
 func r08a(c *an.Ctx) {
@@ -419,4 +420,86 @@ func r08f(c *an.Ctx) {
 		c.Ob("(*core/environment.Manager).cancelCallsPendingAwait|cancels-all", fn.Pos(), ok, "teardown must cancel every call of every weight of every await point that is still pending")
 	}
 	_ = fmt.Sprint
+}
+
+// pendingResetRule (shared by C08 and C09): in handleHooks a store that replaces an entry of the pending-await
+// structure with a fresh empty container is reachable only through a test that THAT entry is absent or empty.
+// Otherwise calls parked under another weight of the same moment are forgotten: never awaited (a critical
+// failure is lost), never cancelled at teardown.
+func pendingResetRule(c *an.Ctx, rule string) {
+	c.Rule(rule, "handleHooks: an entry of callsPendingAwait is replaced by a fresh empty container only when that very entry is absent or empty", 2)
+	fn := c.MustFn("core/environment", "Environment.handleHooks")
+	if fn == nil {
+		return
+	}
+	type edge struct {
+		b *ssa.BasicBlock
+		i int
+	}
+	an.Instrs(fn, func(in ssa.Instruction) {
+		mu, ok := in.(*ssa.MapUpdate)
+		if !ok {
+			return
+		}
+		isPending := false
+		for _, l := range an.BackSlice(mu.Map, an.SliceOpts{}) {
+			if (l.Kind == "field" || l.Kind == "via") && strings.Contains(l.Path, "Environment.callsPendingAwait") {
+				isPending = true
+			}
+		}
+		if !isPending {
+			return
+		}
+		// fresh empty container?
+		fresh := false
+		switch v := mu.Value.(type) {
+		case *ssa.MakeMap:
+			fresh = true
+		case *ssa.MakeSlice:
+			if n, isC := an.ConstInt(v.Len); isC && n == 0 {
+				fresh = true
+			}
+		case *ssa.Slice:
+			if al, isAl := v.X.(*ssa.Alloc); isAl && strings.Contains(al.Type().String(), "[0]") {
+				fresh = true
+			}
+		}
+		if !fresh {
+			return
+		}
+		c.Subject()
+		entry := an.ExprKey(mu.Map) + "[" + an.ExprKey(mu.Key) + "]"
+		cut := map[edge]bool{}
+		tests := 0
+		for _, b := range fn.Blocks {
+			v, trueIdx, isC := an.BoolCondEdge(b)
+			if !isC {
+				continue
+			}
+			// `ok` of a comma-ok lookup of the same entry: cut the absent edge
+			if ex, isEx := v.(*ssa.Extract); isEx && ex.Index == 1 {
+				if lk, isLk := ex.Tuple.(*ssa.Lookup); isLk && an.ExprKey(lk.X)+"["+an.ExprKey(lk.Index)+"]" == entry {
+					cut[edge{b, 1 - trueIdx}] = true
+					tests++
+				}
+			}
+			// len(entry) == 0: cut the empty edge
+			if bo, isB := v.(*ssa.BinOp); isB && (bo.Op == token.EQL || bo.Op == token.NEQ) {
+				if call, isCall := bo.X.(*ssa.Call); isCall && an.CalleeName(&call.Call) == "builtin.len" && an.ExprKey(call.Call.Args[0]) == entry {
+					if z, isZ := an.ConstInt(bo.Y); isZ && z == 0 {
+						if bo.Op == token.EQL {
+							cut[edge{b, trueIdx}] = true
+						} else {
+							cut[edge{b, 1 - trueIdx}] = true
+						}
+						tests++
+					}
+				}
+			}
+		}
+		reach := an.ReachableCut(fn, mu, func(b *ssa.BasicBlock, i int) bool { return cut[edge{b, i}] })
+		depth := strings.Count(entry, "[")
+		c.Ob(fmt.Sprintf("(*core/environment.Environment).handleHooks|reset-pending-level%d", depth), mu.Pos(), !reach && tests > 0,
+			"an entry of the pending-await structure is replaced by an empty container on a path that did not establish that this very entry is absent or empty (%d matching tests): calls already parked there under another weight are forgotten, never awaited and never cancelled", tests)
+	})
 }
